@@ -342,9 +342,13 @@ def year1Spec (r1 : α) (season : List α) (country : String) : α :=
 
 /-- disruption ratio of the model year of month `i`: year 1 = months 0…7, then twelve months a year,
     year 10 extended to the end -/
-def ratioYearSpec (c : CropIn α) (i : Nat) : α :=
+def ratioYearRaw (c : CropIn α) (i : Nat) : α :=
   if i < 8 then year1Spec (ratioAt c.ratios 0) c.season c.country
   else ratioAt c.ratios (Nat.min 9 (1 + (i - 8) / 12))
+
+/-- … with "some very small negative value" (rounding noise of `1 + reduction`) read as zero -/
+def ratioYearSpec (c : CropIn α) (i : Nat) : α :=
+  if ratioYearRaw c i ≤ 0 then 0 else ratioYearRaw c i
 
 /-- cropland expansion: 1 until the first harvest, linear up to the configured ratio, then constant -/
 def areaRampSpec (c : CropIn α) (i : Nat) : α :=
